@@ -710,7 +710,7 @@ def path_cases(ctx, terms, descr):
     from mapproxy.cache.file import FileCache
     from mapproxy.cache.tile import Tile
     rng = ctx.rng
-    n = ctx.n(700, 6000)
+    n = ctx.n(600, 6000)
     caches = {lay: FileCache('/CD', 'png', directory_layout=lay) for lay in LAYOUTS}
     for i in range(n):
         lay = LAYOUTS[i % len(LAYOUTS)]
@@ -814,7 +814,7 @@ def run(ctx):
             else:
                 alpha = exhaustive_alphabet(tr, p, q)
             hists = list(itertools.product(alpha, repeat=ex_len))
-            cap = ctx.n(120 if slow else 250, 2500 if slow else 7000)
+            cap = ctx.n(90 if slow else 180, 2500 if slow else 7000)
             if len(hists) > cap:
                 hists = rng.sample(hists, cap)
             # a sample of longer ones
@@ -826,7 +826,7 @@ def run(ctx):
     # 3. random long histories on colliding pools
     for cfg in cfgs:
         slow = cfg['kind'] in SQL_KINDS
-        for _ in range(ctx.n(3 if slow else 7, 30 if slow else 60)):
+        for _ in range(ctx.n(3 if slow else 6, 30 if slow else 60)):
             pool = gen_pool(rng, cfg, rng.choice([3, 4, 6, 8, 10, 14]))
             length = rng.choice([10, 30, 60, 120, 200]) if not (slow and ctx.quick) else rng.choice([10, 30, 60])
             todo.append((cfg, gen_ops(rng, pay, pool, length, cfg.get('link', 'none') != 'none'), 'random'))
